@@ -126,6 +126,7 @@ pub fn mutate(rng: &mut Rng, v: &Value, tb: &Tables, cfg: &GenCfg) -> Value {
             2 => Value::symbol(format!("{}x", s)),
             _ => Value::list(vec![v.clone()]),
         },
+        Value::String(_) if rng.chance(1, 3) => long_string(rng),
         Value::String(s) => match rng.below(4) {
             0 => Value::symbol(&**s),
             1 => Value::keyword(&**s),
@@ -168,12 +169,33 @@ pub fn mutate(rng: &mut Rng, v: &Value, tb: &Tables, cfg: &GenCfg) -> Value {
     }
 }
 
+/// A string of 50-150 bytes with multi-byte characters at varying alignments
+/// (error messages quote offending strings; truncation must respect boundaries).
+fn long_string(rng: &mut Rng) -> Value {
+    let mut s = String::new();
+    let target = rng.range(50, 150);
+    let pad = rng.below(4);
+    for _ in 0..pad {
+        s.push('a');
+    }
+    while s.len() < target {
+        s.push(*rng.pick(&['é', '中', '𝒳', 'λ', 'x']));
+    }
+    match rng.below(3) {
+        0 => Value::string(s),
+        1 => Value::symbol(s),
+        _ => Value::keyword(s),
+    }
+}
+
 pub fn run<T: Fam>(rep: &mut Report, rng: &mut Rng, tb: &Tables) {
     let name = tname::<T>();
     let mut cfg = GenCfg::default_dialect();
     cfg.name_ok = gen::any_name;
     cfg.max_depth = 3;
-    let (v, origin) = if rng.chance(1, 4) {
+    let (v, origin) = if rng.chance(1, 12) {
+        (long_string(rng), "long-string")
+    } else if rng.chance(1, 4) {
         (gen::gen_value(rng, &cfg, tb, 0), "arbitrary")
     } else {
         let x = T::gen(rng, G { finite: true, depth: 0 });
